@@ -4,7 +4,7 @@ repository under test on every run (Python `ast`; nothing is imported from isoba
 For every concrete Pattern subclass of isobar/pattern/*.py and every parameter of its constructor:
 
   attr      the instance attribute the constructor stores the parameter in (`self.x = x`, `self.x = Pattern.pattern(x)`,
-            `self.x = copy.copy(x)`, or through a forwarded `Parent.__init__(self, ...)` / `super().__init__(...)`)
+            `self.x = copy.copy(x)`, `self.x = Pattern.value(x)` (resolved at construction: the dynamic check then sees it), or through a forwarded `Parent.__init__(self, ...)` / `super().__init__(...)`)
   mode      how the code reachable from __next__ (the method itself plus the `self.m()` methods it calls) uses it:
               value  passed through Pattern.value(self.attr) / self.value(self.attr)      -> accepts scalar or pattern
               items  every item of the tuple / dict attribute is passed through Pattern.value (PMap's *args, **kwargs)
@@ -120,7 +120,7 @@ class Source:
             if isinstance(e, ast.Name) and e.id in pnames:
                 return e.id
             if isinstance(e, ast.Call) and len(e.args) == 1 and not e.keywords and isinstance(e.args[0], ast.Name) \
-                    and e.args[0].id in pnames and ast.unparse(e.func) in ("Pattern.pattern", "copy.copy", "copy.deepcopy"):
+                    and e.args[0].id in pnames and ast.unparse(e.func) in ("Pattern.pattern", "Pattern.value", "copy.copy", "copy.deepcopy"):
                 return e.args[0].id
             return None
         for node in ast.walk(init):
